@@ -3,6 +3,8 @@
    Term syntax: see harness/C05/gen.py (prefix notation); macros (M…) are expanded with Fiber/Boot.lean. -/
 import Driver.Util
 import JanetModel.Fiber.Boot
+import JanetModel.Fiber.Guard
+import JanetModel.Fiber.Sched
 open Driver JanetModel.Fiber
 
 def parseAtom (t : String) : Atom :=
@@ -152,8 +154,59 @@ def countSteps : Nat → Nat → State → Nat × State
     | some _ => (n, s)
     | none => countSteps f (n + 1) (step s)
 
+/-- events of the guard pass carry janet_vm.stackn (relative to the tree's root fiber) -/
+def showEventG (e : Event) : String := s!"{e.l}:{e.fid}:{showVal e.v}:{showSnap e.snap}/{e.depth}"
+
+def countStepsG (after : Bool) (lim : Nat) : Nat → Nat → State → Nat × State
+  | 0, n, s => (n, s)
+  | f + 1, n, s => match s.halt with
+    | some _ => (n, s)
+    | none => countStepsG after lim f (n + 1) (stepG after lim s)
+
+/-- task mode: the event loop's dispatches after the first run; `c:<atom>` = ev/cancel, `r:<atom>` = ev/go -/
+def parseActs (t : String) : List (Nat × Val) :=
+  if t == "-" then [] else
+    (t.splitOn ",").map fun a =>
+      let v := match parseAtom ((a.drop 2).toString) with | .lit x => x | _ => .nil
+      (if a.front == 'c' then JanetModel.Gen.Fiber.sigError else JanetModel.Gen.Fiber.sigOk, v)
+
+/-- a task that hands JANET_SIGNAL_EVENT (13) / JANET_SIGNAL_INTERRUPT (12) to the loop is waiting for an event / is an
+    interrupt request: that is the loop's business (C06 / C07 / C20), not modelled here -/
+def loopSpecial (s : State) : State :=
+  match s.halt with
+  | some (.done sig _) => if sig == 12 || sig == 13 then s.stop (.unmodelled "task signalled event / interrupt to the loop") else s
+  | _ => s
+
+def runActs (fuel : Nat) : List (Nat × Val) → Nat × State → Nat × State
+  | [], (n, s) => (n, loopSpecial s)
+  | (sig, v) :: as, (n, s) =>
+    match (loopSpecial s).halt with
+    | some (.done _ _) => runActs fuel as (countSteps fuel n (loopEnter s 1 v sig))
+    | _ => (n, loopSpecial s)
+
+def showTaskEnd (s : State) : String :=
+  match s.halt, s.fiber? 1 with
+  | some (.done _ _), some f1 =>
+    s!"done {f1.status} {showVal f1.last} {showSnap (JanetModel.Gen.Fiber.stAlive :: s.snapshot.drop 1)}"
+  | _, _ => showHalt s
+
 def stepLine (_ : Unit) (toks : List String) : Unit × String :=
   match toks with
+  | "stree" :: fl :: fuel :: a :: m :: rs :: v :: acts :: r =>
+    match parseTm r with
+    | some (t, []) =>
+      let v0 := match parseAtom v with | .lit x => x | _ => .nil
+      let (n, s) := runActs (num fuel) (parseActs acts)
+        (countSteps (num fuel) 0 (initTask t (flagsOf fl) { arity := num a, minArity := num m, rest := num rs } v0))
+      ((), String.intercalate ";" (s.trace.reverse.map showEvent) ++ " | " ++ showTaskEnd s ++ " | " ++ toString n)
+    | _ => ((), "bad-op parse")
+  | "gtree" :: after :: lim :: fl :: fuel :: a :: m :: rs :: v :: r =>
+    match parseTm r with
+    | some (t, []) =>
+      let v0 := match parseAtom v with | .lit x => x | _ => .nil
+      let (n, s) := countStepsG (after == "1") (num lim) (num fuel) 0 (initp t (flagsOf fl) { arity := num a, minArity := num m, rest := num rs } v0)
+      ((), String.intercalate ";" (s.trace.reverse.map showEventG) ++ " | " ++ showHalt s ++ " | " ++ toString n)
+    | _ => ((), "bad-op parse")
   | "tree" :: fl :: fuel :: a :: m :: rs :: v :: r =>
     match parseTm r with
     | some (t, []) =>
